@@ -216,7 +216,7 @@ CUSTOM_KEYS = ["team", "owner_email", "retry_policy", "Mixed_Case", "a.b", "Grö
 
 def _num_strings():
     return st.one_of(st.integers(-10**6, 10**12).map(str), st.floats(allow_nan=False, allow_infinity=False, width=64).map(repr),
-                     st.sampled_from(["0", "1", "-1", "2.5", "0.0", "-0.5", "1e-05", "3.0"]))
+                     st.sampled_from(["0", "1", "-1", "2.5", "0.0", "-0.5", "1e-05", "3.0", "inf", "-inf", "nan", "1e999", "Infinity"]))
 
 
 @st.composite
@@ -239,7 +239,7 @@ def set_steps(draw):
         # few keys x values that compare equal across types (True == 1 == 1.0, 30 == 30.0 ...): a later set of the
         # "same" value in another type must still be stored and returned as given (defaults: timeout 30, max_retries 3)
         k = draw(st.sampled_from(["team", "retry_policy", "timeout", "timeout"]))
-        v = draw(st.sampled_from(["30", "30.0", "3", "3.0", "1", "1.0"] if k == "timeout" else ["true", "1", "1.0", "false", "0", "0.0", "3", "3.0"]))
+        v = draw(st.sampled_from(["30", "30.0", "3", "3.0", "1", "1.0", "inf", "1e999"] if k == "timeout" else ["true", "1", "1.0", "false", "0", "0.0", "3", "3.0", "nan", "inf"]))
     elif kind == "custom":
         k = draw(st.sampled_from(CUSTOM_KEYS))
         v = draw(st.one_of(_num_strings(), st.sampled_from(["true", "False", "TRUE", "LOUD", "-x", "null", "~", "yes", "2024-01-01", "0x1F", "1:30", "[a, b]", "{a: 1}", "a: b", "# c", "'q'", "*ref", "&a", "!tag", "@at", "`t`", "%p", "|", ">", "- item", "? k", "", " lead", "trail ", "é✓", "line1\nline2", "tab\there", "\u2028sep", "\x85nel"]), _free_text))
